@@ -31,9 +31,12 @@ From Tickit Require Import LoopDefs.
 Import ListNotations.
 Local Open Scope Z_scope.
 
-Record cfg := mkCfg { errno_late : bool; revents_stale : bool }.
-Definition fixed_cfg : cfg := mkCfg false false.
-Definition pinned_cfg : cfg := mkCfg true true.
+Record cfg := mkCfg { errno_late : bool; revents_stale : bool; stop_early : bool }.
+Definition fixed_cfg : cfg := mkCfg false false false.
+Definition pinned_cfg : cfg := mkCfg true true false.
+(* the seeded variant that leaves the loop as soon as a timer / deferred callback has called
+   tickit_stop, before the test of pollret/errno and dispatch_signals *)
+Definition stop_early_cfg : cfg := mkCfg false false true.
 
 Record iow := mkIo { i_id : Z; i_fd : Z; i_slot : nat; i_unbind : bool; i_cb : Z }.
 Record sgw := mkSg { g_id : Z; g_sig : Z; g_unbind : bool; g_cb : Z }.
@@ -47,13 +50,15 @@ Inductive saction :=
 | SCancel (id : Z)
 | SErrno (e : Z)        (* the callback leaves errno = e *)
 | SRaise (sig : Z)      (* raise(sig): blocked, stays pending in the kernel *)
-| SNop.
+| SNop
+| SStop.                (* tickit_stop *)
 
 Inductive sop :=
 | SAct (a : saction)
 | STick (sleep : bool)
 | SReady (fd : Z) (revents : Z)   (* fd is ready with revents at the next ppoll *)
-| SArrive (sig : Z).              (* sig arrives while the next ppoll waits *)
+| SArrive (sig : Z)               (* sig arrives while the next ppoll waits *)
+| SRunLoop (k : nat).             (* tickit_run; the harness calls tickit_stop in the k-th ppoll *)
 
 Definition EINTR : Z := 4.
 Definition GARBAGE : Z := 48830.   (* 0xbebe: AddressSanitizer's fill of fresh heap memory *)
@@ -66,27 +71,30 @@ Record sst := mkSst {
   errno : Z;
   ready : list (Z * Z); inwait : list Z;
   cursor : option Z;     (* Tickit.next_sigwatch *)
-  snext : Z; siter : Z; slog : list obs }.
+  snext : Z; siter : Z; slog : list obs;
+  running : bool         (* EventLoopData.still_running *) }.
 
 (* the instance as tickit_build leaves it with a terminal that has no input descriptor:
    slot 0 holds fd = -1 (free), see evloop_io *)
 Definition sst0 : sst :=
-  mkSst [] [] [] [] [mkSlot (-1) 1 0 (-1)] [] [] 0 [] [] None 0 0 [].
+  mkSst [] [] [] [] [mkSlot (-1) 1 0 (-1)] [] [] 0 [] [] None 0 0 [] false.
 
-Definition up_iows (s : sst) v := mkSst v (sgws s) (dlaters s) (drun s) (slots s) (kpend s) (pending s) (errno s) (ready s) (inwait s) (cursor s) (snext s) (siter s) (slog s).
-Definition up_sgws (s : sst) v := mkSst (iows s) v (dlaters s) (drun s) (slots s) (kpend s) (pending s) (errno s) (ready s) (inwait s) (cursor s) (snext s) (siter s) (slog s).
-Definition up_dlaters (s : sst) v := mkSst (iows s) (sgws s) v (drun s) (slots s) (kpend s) (pending s) (errno s) (ready s) (inwait s) (cursor s) (snext s) (siter s) (slog s).
-Definition up_drun (s : sst) v := mkSst (iows s) (sgws s) (dlaters s) v (slots s) (kpend s) (pending s) (errno s) (ready s) (inwait s) (cursor s) (snext s) (siter s) (slog s).
-Definition up_slots (s : sst) v := mkSst (iows s) (sgws s) (dlaters s) (drun s) v (kpend s) (pending s) (errno s) (ready s) (inwait s) (cursor s) (snext s) (siter s) (slog s).
-Definition up_kpend (s : sst) v := mkSst (iows s) (sgws s) (dlaters s) (drun s) (slots s) v (pending s) (errno s) (ready s) (inwait s) (cursor s) (snext s) (siter s) (slog s).
-Definition up_pending (s : sst) v := mkSst (iows s) (sgws s) (dlaters s) (drun s) (slots s) (kpend s) v (errno s) (ready s) (inwait s) (cursor s) (snext s) (siter s) (slog s).
-Definition up_errno (s : sst) v := mkSst (iows s) (sgws s) (dlaters s) (drun s) (slots s) (kpend s) (pending s) v (ready s) (inwait s) (cursor s) (snext s) (siter s) (slog s).
-Definition up_ready (s : sst) v := mkSst (iows s) (sgws s) (dlaters s) (drun s) (slots s) (kpend s) (pending s) (errno s) v (inwait s) (cursor s) (snext s) (siter s) (slog s).
-Definition up_inwait (s : sst) v := mkSst (iows s) (sgws s) (dlaters s) (drun s) (slots s) (kpend s) (pending s) (errno s) (ready s) v (cursor s) (snext s) (siter s) (slog s).
-Definition up_cursor (s : sst) v := mkSst (iows s) (sgws s) (dlaters s) (drun s) (slots s) (kpend s) (pending s) (errno s) (ready s) (inwait s) v (snext s) (siter s) (slog s).
-Definition up_snext (s : sst) v := mkSst (iows s) (sgws s) (dlaters s) (drun s) (slots s) (kpend s) (pending s) (errno s) (ready s) (inwait s) (cursor s) v (siter s) (slog s).
-Definition up_siter (s : sst) v := mkSst (iows s) (sgws s) (dlaters s) (drun s) (slots s) (kpend s) (pending s) (errno s) (ready s) (inwait s) (cursor s) (snext s) v (slog s).
-Definition up_slog (s : sst) v := mkSst (iows s) (sgws s) (dlaters s) (drun s) (slots s) (kpend s) (pending s) (errno s) (ready s) (inwait s) (cursor s) (snext s) (siter s) v.
+Definition up_iows (s : sst) v := mkSst v (sgws s) (dlaters s) (drun s) (slots s) (kpend s) (pending s) (errno s) (ready s) (inwait s) (cursor s) (snext s) (siter s) (slog s) (running s).
+Definition up_sgws (s : sst) v := mkSst (iows s) v (dlaters s) (drun s) (slots s) (kpend s) (pending s) (errno s) (ready s) (inwait s) (cursor s) (snext s) (siter s) (slog s) (running s).
+Definition up_dlaters (s : sst) v := mkSst (iows s) (sgws s) v (drun s) (slots s) (kpend s) (pending s) (errno s) (ready s) (inwait s) (cursor s) (snext s) (siter s) (slog s) (running s).
+Definition up_drun (s : sst) v := mkSst (iows s) (sgws s) (dlaters s) v (slots s) (kpend s) (pending s) (errno s) (ready s) (inwait s) (cursor s) (snext s) (siter s) (slog s) (running s).
+Definition up_slots (s : sst) v := mkSst (iows s) (sgws s) (dlaters s) (drun s) v (kpend s) (pending s) (errno s) (ready s) (inwait s) (cursor s) (snext s) (siter s) (slog s) (running s).
+Definition up_kpend (s : sst) v := mkSst (iows s) (sgws s) (dlaters s) (drun s) (slots s) v (pending s) (errno s) (ready s) (inwait s) (cursor s) (snext s) (siter s) (slog s) (running s).
+Definition up_pending (s : sst) v := mkSst (iows s) (sgws s) (dlaters s) (drun s) (slots s) (kpend s) v (errno s) (ready s) (inwait s) (cursor s) (snext s) (siter s) (slog s) (running s).
+Definition up_errno (s : sst) v := mkSst (iows s) (sgws s) (dlaters s) (drun s) (slots s) (kpend s) (pending s) v (ready s) (inwait s) (cursor s) (snext s) (siter s) (slog s) (running s).
+Definition up_ready (s : sst) v := mkSst (iows s) (sgws s) (dlaters s) (drun s) (slots s) (kpend s) (pending s) (errno s) v (inwait s) (cursor s) (snext s) (siter s) (slog s) (running s).
+Definition up_inwait (s : sst) v := mkSst (iows s) (sgws s) (dlaters s) (drun s) (slots s) (kpend s) (pending s) (errno s) (ready s) v (cursor s) (snext s) (siter s) (slog s) (running s).
+Definition up_cursor (s : sst) v := mkSst (iows s) (sgws s) (dlaters s) (drun s) (slots s) (kpend s) (pending s) (errno s) (ready s) (inwait s) v (snext s) (siter s) (slog s) (running s).
+Definition up_snext (s : sst) v := mkSst (iows s) (sgws s) (dlaters s) (drun s) (slots s) (kpend s) (pending s) (errno s) (ready s) (inwait s) (cursor s) v (siter s) (slog s) (running s).
+Definition up_siter (s : sst) v := mkSst (iows s) (sgws s) (dlaters s) (drun s) (slots s) (kpend s) (pending s) (errno s) (ready s) (inwait s) (cursor s) (snext s) v (slog s) (running s).
+Definition up_slog (s : sst) v := mkSst (iows s) (sgws s) (dlaters s) (drun s) (slots s) (kpend s) (pending s) (errno s) (ready s) (inwait s) (cursor s) (snext s) (siter s) v (running s).
+
+Definition up_running (s : sst) v := mkSst (iows s) (sgws s) (dlaters s) (drun s) (slots s) (kpend s) (pending s) (errno s) (ready s) (inwait s) (cursor s) (snext s) (siter s) (slog s) v.
 
 Definition semit (s : sst) (id : Z) (k : kind) (flags x : Z) : sst :=
   up_slog s (OEv (mkE id k flags (siter s) 0 x) :: slog s).
@@ -211,6 +219,7 @@ Definition sdo_action (s : sst) (a : saction) : sst :=
   | SErrno e => up_errno s e
   | SRaise sig => if is_watched s sig then up_kpend s (addz sig (kpend s)) else s
   | SNop => s
+  | SStop => up_running s false
   end.
 
 Definition sdo_actions (s : sst) (l : list saction) : sst := fold_left sdo_action l s.
@@ -313,16 +322,35 @@ Definition dispatch_signals (fuel : nat) (s : sst) : option sst :=
   dispatch_sigs fuel p (up_pending s []).
 
 (* one pass of the loop of evloop_run *)
-Definition stick (fuel : nat) (sleep : bool) (s : sst) : option sst :=
+Definition iteration (fuel : nat) (sleep : bool) (s : sst) : option sst :=
   let s0 := up_siter s (siter s + 1) in
   let msec := if sleep then match dlaters s0 with [] => -1 | _ => 0 end else 0 in
   let s1 := up_slog s0 (OPoll msec :: slog s0) in
   let (ret, s2) := ppoll s1 in
   let latched := errno s2 in
   let s3 := invoke_laters s2 in
-  if 0 <? ret then io_dispatch fuel 0 s3
+  if stop_early c && negb (running s3) then Some s3
+  else if 0 <? ret then io_dispatch fuel 0 s3
   else if (ret <? 0) && ((if errno_late c then errno s3 else latched) =? EINTR) then dispatch_signals fuel s3
   else Some s3.
+
+(* tickit_tick: evloop_run with ONCE / NOHANG sets still_running, makes one pass and returns *)
+Definition stick (fuel : nat) (sleep : bool) (s : sst) : option sst :=
+  iteration fuel sleep (up_running s true).
+
+(* tickit_run: evloop_run loops while(still_running); the harness calls tickit_stop from inside
+   the k-th ppoll of the run, so the k-th pass is the last at the latest.  (The SIGINT watch
+   tickit_run keeps for the duration is not modelled: no script uses that signal.) *)
+Fixpoint run_passes (fuel : nat) (k : nat) (s : sst) : option sst :=
+  match k with
+  | O => Some s
+  | S k' =>
+      if negb (running s) then Some s
+      else match iteration fuel true (if Nat.eqb k' 0 then up_running s false else s) with
+           | None => None
+           | Some s2 => run_passes fuel k' s2
+           end
+  end.
 
 (* destroy_watchlist over iowatches, laters, signals: UNBIND|DESTROY to those that asked *)
 Definition sdestroy (s : sst) : sst :=
@@ -340,6 +368,7 @@ Definition sdo_op (fuel : nat) (os : option sst) (o : sop) : option sst :=
       | STick sl => stick fuel sl s
       | SReady fd rv => Some (up_ready s ((fd, rv) :: ready s))
       | SArrive sg => Some (up_inwait s (inwait s ++ [sg]))
+      | SRunLoop k => run_passes fuel k (up_running s true)
       end
   end.
 
